@@ -3,6 +3,7 @@ CFG = {
     "lean_theorems": "LeptosModel.Theorems.C01",
     "lean_exe": "lm_c01",
     "theorems": [
+        "Leptos.Reactive.C01_read_eq_scratch",
         "Leptos.Reactive.C01_read_eq_scratch_noeff",
         "Leptos.Reactive.C01_scratch_fuel_irrelevant",
         "Leptos.Reactive.upd_ok",
@@ -22,7 +23,7 @@ CFG = {
                     "derived signals / MappedSignal / Signal::derive are plain closures without cache: they are from-scratch by construction and are not separately modelled"],
     "manifest": {
         "category": "proof",
-        "text": "Lean 4 theorem C01_read_eq_scratch_noeff: for EVERY well-formed program of signals and memos with tracked reads (any DAG: diamonds, "
+        "text": "Lean 4 theorem C01_read_eq_scratch: for EVERY well-formed program of signals, memos AND effects (effects may write signals; any polling order; pause/resume/dispose) with tracked reads (any DAG: diamonds, "
                 "chains, conditional/dynamic dependencies, equality cut-offs, memos read inside memos) and EVERY finite history of writes (equal values "
                 "included) and reads in any order, a read returns the from-scratch value - proved by an invariant over the mark-dirty/mark-check/pull "
                 "protocol (InvR) and a big-step lemma for update_if_necessary (upd_ok), ~2800 lines, no sorry, axioms propext/Classical.choice/Quot.sound. "
@@ -31,7 +32,7 @@ CFG = {
                 "reads (snapshot semantics) and graphs that also contain effects are covered by the correspondence; their theorem is still open "
                 "(statement visible as C01_read_eq_scratch_stmt).",
         "design_ref": "DESIGN.md §7 C01",
-        "note": "hand-written model validated by correspondence on generated inputs; theorem restricted to tracked reads and effect-free programs",
+        "note": "hand-written model validated by correspondence on generated inputs; theorem restricted to tracked reads",
         "technique": "Lean 4 proof (invariant + induction over histories) + differential correspondence",
     },
 }
